@@ -1,5 +1,7 @@
 /* C02 shim: plain-C access to crypto_aes_* and crypto_aesctr_* (opaque pointers). */
 #include <stdint.h>
+#include <stdlib.h>
+#include <string.h>
 #include <stddef.h>
 
 #include "crypto_aes.h"
@@ -17,8 +19,22 @@ c02_can_use_intrinsics(void)
 void *
 c02_key_expand(const uint8_t * key, size_t len)
 {
+	uint8_t * blk;
+	void * k;
+	size_t off;
 
-	return (crypto_aes_key_expand(key, len));
+	/*
+	 * "For every key": the caller's key buffer may sit at any address.  Hand the
+	 * key over at a misalignment 0..15 chosen by the key itself (a pure function
+	 * of the case), inside a heap block which ends exactly at the key's end.
+	 */
+	off = (len > 0) ? (size_t)((key[0] ^ key[len - 1]) & 15) : 0;
+	if ((blk = malloc(len + off)) == NULL)
+		return (NULL);
+	memcpy(blk + off, key, len);
+	k = crypto_aes_key_expand(blk + off, len);
+	free(blk);
+	return (k);
 }
 
 void
